@@ -112,17 +112,18 @@ Fixpoint val_of_dval (v : dval) : val :=
 
 Definition dec_elem (block : bytes) (c : tcomp) (hs hp : Z) : res cval := DecModel.decode_elementary block c hs hp.
 
-Section WithFormat.
+Section WithHash.
+  Variable H : bytes -> bytes.
   Variable fa : cval -> option (list bytes).
   Definition mSignature := Signature.
-  Definition mSelectorBytes := FunctionSelectorBytes keccak256.
-  Definition mHashBytes := SignatureHashBytes keccak256.
-  Definition mEncodeCallData := EncodeCallData keccak256 EncModel.EncodeABIData.
-  Definition mDecodeCallData := DecodeCallData keccak256 DecModel.DecodeABIData.
-  Definition mDecodeEventData := DecodeEventData keccak256 DecModel.DecodeABIData dec_elem.
-  Definition mParseError := ParseError keccak256 DecModel.DecodeABIData.
-  Definition mErrorString := ErrorString keccak256 DecModel.DecodeABIData fa.
-End WithFormat.
+  Definition mSelectorBytes := FunctionSelectorBytes H.
+  Definition mHashBytes := SignatureHashBytes H.
+  Definition mEncodeCallData := EncodeCallData H EncModel.EncodeABIData.
+  Definition mDecodeCallData := DecodeCallData H DecModel.DecodeABIData.
+  Definition mDecodeEventData := DecodeEventData H DecModel.DecodeABIData dec_elem.
+  Definition mParseError := ParseError H DecModel.DecodeABIData.
+  Definition mErrorString := ErrorString H DecModel.DecodeABIData fa.
+End WithHash.
 
 (* ---------- cases ---------- *)
 
@@ -147,7 +148,7 @@ Inductive case :=
    expectation: index into (Error(string) :: abi) of the entry that must be found, with its arguments *)
 | CErr (abi : list dentry) (data : bdsl) (cls : nat) (found : option (string * string * dval))
        (str : bdsl) (ok : bool) (fmt : option (list bdsl))
-       (expect : option (option (nat * list dval))).
+       (expect : option (option (N * list dval))).
 
 Definition all_tys (e : entry) : option (list ty) :=
   (fix go (l : list param) : option (list ty) :=
@@ -190,15 +191,33 @@ Fixpoint children_match (ds : list dchild) (xs : list cval) : bool :=
   | _, _ => false
   end.
 
+Fixpoint dval_eqb (a b : dval) {struct a} : bool :=
+  match a, b with
+  | DNum x, DNum y => (x =? y)%Z
+  | DBytes x, DBytes y | DStr x, DStr y => bytes_eqb (bexpand x) (bexpand y)
+  | DFloat m e, DFloat m' e' => bfloat_same_value (BFin m e 64) (BFin m' e' 64)
+  | DList l, DList l' =>
+      (fix go (l l' : list dval) {struct l} : bool :=
+         match l, l' with
+         | [], [] => true
+         | x :: r, y :: r' => dval_eqb x y && go r r'
+         | _, _ => false
+         end) l l'
+  | DNilP, DNilP => true
+  | _, _ => false
+  end.
 Fixpoint dvals_eqb (a b : list dval) : bool :=
   match a, b with
   | [], [] => true
-  | x :: a', y :: b' => matches x (attach (TCTuple [] []) y) && dvals_eqb a' b'
+  | x :: a', y :: b' => dval_eqb x y && dvals_eqb a' b'
   | _, _ => false
   end.
 
 (* result codes: 0 = agree; 1..9 = the model differs from the implementation; >= 10 = the
    implementation fails a property oracle *)
+Section Check.
+  Variable H : bytes -> bytes.
+
 Definition check_case (c : case) : N :=
   match c with
   | CSig de cls sig sel topic0 =>
@@ -208,16 +227,16 @@ Definition check_case (c : case) : N :=
       | Some tys =>
           let spec_sig := signature_spec (e_name e) tys in
           if negb ((cls =? 0)%nat && bytes_eqb isig spec_sig) then 10
-          else if negb (bytes_eqb isel (selector_spec keccak256 (e_name e) tys)) then 11
-          else if negb (bytes_eqb itop (topic0_spec keccak256 (e_name e) tys)) then 12
+          else if negb (bytes_eqb isel (selector_spec H (e_name e) tys)) then 11
+          else if negb (bytes_eqb itop (topic0_spec H (e_name e) tys)) then 12
           else if negb (res_bytes_match cls isig (mSignature e)) then 1
-          else if negb (res_bytes_match 0 isel (mSelectorBytes e)) then 2
-          else if negb (bytes_eqb itop (mHashBytes e)) then 3
+          else if negb (res_bytes_match 0 isel (mSelectorBytes H e)) then 2
+          else if negb (bytes_eqb itop (mHashBytes H e)) then 3
           else 0
       | None =>
           if negb (res_bytes_match cls isig (mSignature e)) then 1
-          else if negb (res_bytes_match 0 isel (mSelectorBytes e)) then 2
-          else if negb (bytes_eqb itop (mHashBytes e)) then 3
+          else if negb (res_bytes_match 0 isel (mSelectorBytes H e)) then 2
+          else if negb (bytes_eqb itop (mHashBytes H e)) then 3
           else 0
       end
   | CCall de v exact ecls enc dcls dec =>
@@ -228,13 +247,14 @@ Definition check_case (c : case) : N :=
           let x := attach tree v in
           (* oracle: selector ++ enc((T1..Tn), v) of the specification; decodes back to v *)
           if exact && negb ((ecls =? 0)%nat &&
-                            bytes_eqb ienc (selector_spec keccak256 (e_name e) tys ++ Abi.Spec.enc (TTuple tys) (val_of_dval v)))
+                            bytes_eqb ienc (selector_spec H (e_name e) tys ++ Abi.Spec.enc (TTuple tys) (val_of_dval v)))
           then 13
           else if exact && negb ((dcls =? 0)%nat && dvals_eqb [v] [dec]) then 14
-          else if negb (res_bytes_match ecls ienc (mEncodeCallData e x)) then 4
-          else if (ecls =? 0)%nat && negb (res_val_match dcls dec (mDecodeCallData e ienc)) then 5
+          else if negb (res_bytes_match ecls ienc (mEncodeCallData H e x)) then 4
+          else if (ecls =? 0)%nat && negb (res_val_match dcls dec (mDecodeCallData H e ienc)) then 5
           else 0
-      | _, _ => 9
+      | _, _ =>
+          if (ecls =? 1)%nat && is_err (mEncodeCallData H e CVNil) then 0 else 9
       end
   | CDec de data cls dec =>
       let e := entry_of de in
@@ -243,10 +263,10 @@ Definition check_case (c : case) : N :=
       if (cls =? 2)%nat then 19
       else if (cls =? 0)%nat &&
          match all_tys e with
-         | Some tys => negb (bytes_eqb (firstn 4 d) (selector_spec keccak256 (e_name e) tys) && (4 <=? length d)%nat)
+         | Some tys => negb (bytes_eqb (firstn 4 d) (selector_spec H (e_name e) tys) && (4 <=? length d)%nat)
          | None => true
          end then 15
-      else if negb (res_val_match cls dec (mDecodeCallData e d)) then 5
+      else if negb (res_val_match cls dec (mDecodeCallData H e d)) then 5
       else 0
   | CEvent de topics data cls out expect =>
       let e := entry_of de in
@@ -255,16 +275,16 @@ Definition check_case (c : case) : N :=
       if (cls =? 2)%nat then 19
       else match expect with
       | Some None => if (cls =? 1)%nat then
-                       match mDecodeEventData e tps (bexpand data) with Err _ => 0 | _ => 6 end
+                       match mDecodeEventData H e tps (bexpand data) with Err _ => 0 | _ => 6 end
                      else 17
       | Some (Some l) =>
           if negb ((cls =? 0)%nat && dvals_eqb l outv) then 16
-          else match mDecodeEventData e tps (bexpand data) with
+          else match mDecodeEventData H e tps (bexpand data) with
                | Ok (CV _ xs GNil) => if children_match out xs then 0 else 6
                | _ => 6
                end
       | None =>
-          match mDecodeEventData e tps (bexpand data), cls with
+          match mDecodeEventData H e tps (bexpand data), cls with
           | Ok (CV _ xs GNil), 0%nat => if children_match out xs then 0 else 6
           | Err _, 1%nat => 0
           | _, _ => 6
@@ -280,7 +300,7 @@ Definition check_case (c : case) : N :=
       if match expect with
          | Some None => match found with None => false | Some _ => true end
          | Some (Some (i, args)) =>
-             match found, nth_error (default_error :: a) i with
+             match found, nth_error (default_error :: a) (N.to_nat i) with
              | Some (nm, sg, v), Some ex =>
                  negb (bytes_eqb (S' nm) (e_name ex) && dvals_eqb [DList args] [v] &&
                        match all_tys ex with
@@ -292,15 +312,15 @@ Definition check_case (c : case) : N :=
          | None => false
          end then 18
       else
-      match mParseError a d, found with
+      match mParseError H a d, found with
       | Ok None, None =>
-          match mErrorString fa a d with
+          match mErrorString H fa a d with
           | Ok (s, k) => if bytes_eqb s (bexpand str) && Bool.eqb k ok then 0 else 8
           | _ => 8
           end
       | Ok (Some (ex, x)), Some (nm, sg, v) =>
           if negb (bytes_eqb (S' nm) (e_name ex) && res_bytes_match 0 (S' sg) (mSignature ex) && matches v x) then 7
-          else match mErrorString fa a d with
+          else match mErrorString H fa a d with
                | Ok (s, k) => if bytes_eqb s (bexpand str) && Bool.eqb k ok then 0 else 8
                | _ => 8
                end
@@ -308,23 +328,46 @@ Definition check_case (c : case) : N :=
       end
   end.
 
-Fixpoint mismatches_go (i : N) (l : list case) : list (N * N) :=
+End Check.
+
+(* The hash enters a case as a finite table filled by the harness from golang.org/x/crypto/sha3
+   directly: (message, digest) for the signature of every entry of the case.  A message missing from
+   the table hashes to the empty string, which no comparison accepts.  For the signature cases every
+   table entry is re-computed with the Keccak-256 of Base/Keccak.v. *)
+Definition tabH (t : list (bytes * bytes)) (m : bytes) : bytes :=
+  match find (fun p => bytes_eqb (fst p) m) t with
+  | Some p => snd p
+  | None => []
+  end.
+
+Inductive hcase := HC (tab : list (bdsl * bdsl)) (c : case).
+
+Definition check_hcase (hc : hcase) : N :=
+  match hc with
+  | HC tab c =>
+      let t := map (fun p : bdsl * bdsl => (bexpand (fst p), bexpand (snd p))) tab in
+      if match c with CSig _ _ _ _ _ => negb (forallb (fun p => bytes_eqb (keccak256 (fst p)) (snd p)) t) | _ => false end
+      then 20
+      else check_case (tabH t) c
+  end.
+
+Fixpoint mismatches_go (i : N) (l : list hcase) : list (N * N) :=
   match l with
   | [] => []
-  | c :: t => let r := check_case c in
+  | c :: t => let r := check_hcase c in
               if (r =? 0)%N then mismatches_go (i + 1) t else (i, r) :: mismatches_go (i + 1) t
   end.
-Definition mismatches (l : list case) : list (N * N) := firstn 20 (mismatches_go 0 l).
+Definition mismatches (l : list hcase) : list (N * N) := firstn 20 (mismatches_go 0 l).
 
 (* ---------- self-checks of the evaluator ---------- *)
 Example run_transfer_selector :
-  mSelectorBytes (entry_of (DEnt TyFunction "transfer" false
+  mSelectorBytes keccak256 (entry_of (DEnt TyFunction "transfer" false
      [DP "recipient" (Some (DE EAddress 160 0)) false; DP "amount" (Some (DE EUInt 256 0)) false]))
   = Ok (unhex "a9059cbb").
 Proof. vm_compute. reflexivity. Qed.
 
 Example run_transfer_event_topic0 :
-  mHashBytes (entry_of (DEnt TyEvent "Transfer" false
+  mHashBytes keccak256 (entry_of (DEnt TyEvent "Transfer" false
      [DP "from" (Some (DE EAddress 160 0)) true; DP "to" (Some (DE EAddress 160 0)) true;
       DP "value" (Some (DE EUInt 256 0)) false]))
   = unhex "ddf252ad1be2c89b69c2b068fc378daa952ba7f163c4a11628f55a4df523b3ef".
